@@ -9,9 +9,14 @@ def configs(tier):
         dict(callers=['inf', 'inf'], capacity=2, backpressure=False, work_fail=True),
         dict(callers=['inf'], capacity=1, backpressure=False),
         dict(callers=[], capacity=2, backpressure=False, stream=[2, None]),
+        # pairing inside the real worker loop (Worker._start_single: ids of inputs handed to stream() are paired
+        # FIFO with its outputs) with preprocess rejections and failures, two concurrent callers
+        ('models.servlet_scn:ServletScn', dict(stages=[1], init_fail=False, work_fail=True, pre_fail=True, callers=2)),
     ]
     if tier == 'thorough':
         cs += [
+            ('models.servlet_scn:ServletScn', dict(stages=[2], init_fail=False, work_fail=False, pre_fail=True, callers=3, capacity=3)),
+            ('models.servlet_scn:ServletScn', dict(stages=[1, 1], init_fail=False, work_fail=True, pre_fail=True, callers=2)),
             dict(callers=['inf', 'inf', 'inf'], capacity=3, backpressure=False, work_fail=True),
             dict(callers=['inf', 'inf'], capacity=1, backpressure=False, work_fail=True),
             dict(callers=[], capacity=1, backpressure=False, stream=[3, None]),
